@@ -76,16 +76,27 @@ fn check_exactly_once(rep: &mut Report, kind: Kind, idx: u64, bi: usize, batch: 
 fn main() {
     let cli = Cli::parse();
     let mut rep = Report::new("C06", &cli);
-    rep.note("rule", json!("case = BatchSort / BatchVisualSort with distance shards 1..4 x voting shards 1..4 and a sequence of 4..10 batches over 1..5 scenes, under one of the schedules {free, seeded random delay plan over all vote.* / batch.* / store.* schedule points, every voting thread stalled at vote.result.send (bounded(1) back-pressure), predict loop stalled after each batch.scene.dispatched, voting thread stalled at vote.monitor.dec while the next predict already waits on the monitor} and one of the two retrieval disciplines the property allows {same thread after predict; consumer thread started before predict with the next batch submitted while it is still draining}. Monitors: (1) exactly-once: every batch delivers exactly one result per submitted scene, each with one record per detection in order; (2) refinement: per scene the grouping (up to an id bijection built incrementally) and the boxes / epochs / lengths (bit-exact) equal those of Sort / VisualSort run on that scene's sequence of detection lists; grouping differences go through the explain-divergence oracle; (3) progress: a quiescence detector (all threads sleeping, no CPU time, no hook event for 4 s) turns a hang of predict / get / Drop into a deadlock violation with the last hook site of every thread. Non-trivial: (case) with >= 2 scenes per batch and >= 2 voting threads or a stalling schedule; distinct by case hash; distinct hook-order signatures are counted."));
+    rep.note("rule", json!("case = BatchSort / BatchVisualSort with distance shards 1..4 x voting shards 1..4 and a sequence of 4..10 batches over 1..5 scenes, under one of the schedules {free, seeded random delay plan over all vote.* / batch.* / store.* schedule points, every voting thread stalled at vote.result.send (bounded(1) back-pressure), predict loop stalled after each batch.scene.dispatched, voting thread stalled at vote.monitor.dec while the next predict already waits on the monitor} and one of the two retrieval disciplines the property allows {same thread after predict; consumer thread started before predict with the next batch submitted while it is still draining}. Monitors: (1) exactly-once: every batch delivers exactly one result per submitted scene, each with one record per detection in order; (2) refinement: per scene the grouping (up to an id bijection built incrementally) and the boxes / epochs / lengths (bit-exact) equal those of Sort / VisualSort run on that scene's sequence of detection lists, in same-thread mode also the stored state of every touched track (histories, gallery multiset, collected count, filter state) and every batch scene call is itself judged by the C02 / C12 references; grouping differences go through the explain-divergence oracle; (3) progress: a quiescence detector (all threads sleeping, no CPU time, no hook event for 4 s) turns a hang of predict / get / Drop into a deadlock violation with the last hook site of every thread. Non-trivial: (case) with >= 2 scenes per batch and >= 2 voting threads or a stalling schedule; distinct by case hash; distinct hook-order signatures are counted."));
     rep.note("assumptions", json!(["absence of deadlock is claimed only for the schedules observed (no explicit-state exploration of the monitor/bounded-channel protocol in this family)", "a stall in which threads keep consuming CPU is inconclusive, never a violation"]));
     let ctl = if cli.small { None } else { Some(Controller::install()) };
     let wd = if cli.small { None } else { Some(Watchdog::start(&cli, "C06", ctl.clone())) };
-    let n = cli.cases(400, 8000);
+    let n = cli.cases(960, 12000);
     for idx in cli.index_range(n) {
         let mut rng = Rng::for_case(cli.seed, cli.shard, idx);
         let kind = if idx % 2 == 0 { Kind::BatchSort } else { Kind::BatchVisual };
         let mut cfg = gen_cfg(&mut rng, kind);
-        cfg.max_idle = 1 + rng.usize(3);
+        cfg.max_idle = rng.usize(4);
+        cfg.auto_waste = *rng.pick(&[None, None, Some(0), Some(1), Some(3)]);
+        if kind == Kind::BatchVisual && rng.chance(0.3) {
+            // only one of the two own-area thresholds set (they are evaluated at different places)
+            if rng.chance(0.5) {
+                cfg.vis.own_use = 0.0;
+                cfg.vis.own_collect = *rng.pick(&[0.3f32, 0.6, 0.9]);
+            } else {
+                cfg.vis.own_collect = 0.0;
+                cfg.vis.own_use = *rng.pick(&[0.3f32, 0.6, 0.9]);
+            }
+        }
         if cli.small {
             cfg.shards = 2;
             cfg.voting_shards = 2;
@@ -103,6 +114,7 @@ fn main() {
             steps: 40,
             low_quality: false,
             avoid_coincident: kind.is_visual() && (cfg.vis.own_use + cfg.vis.own_collect > 0.0),
+            low_conf: rng.chance(0.15),
         };
         let h = HistOpts { len: if cli.small { 2 } else { 4 + rng.usize(7) }, lifecycle_ops: false, clear_wasted: false, auto_waste_ops: false, batches: true, empty_calls: false };
         let ops = gen_history(&mut rng, &w, &h);
@@ -138,6 +150,7 @@ fn main() {
         let mut outs: Vec<BatchOut> = vec![];
         let mut pres: Vec<Vec<LiveTrack>> = vec![];
         let mut pre_epochs: Vec<HashMap<u64, usize>> = vec![];
+        let mut posts: Vec<HashMap<u64, LiveTrack>> = vec![];
         if consumer_thread {
             let mut pending: Vec<mpsc::Receiver<BatchOut>> = vec![];
             for b in &batches {
@@ -163,6 +176,7 @@ fn main() {
                 pres.push(trk.live());
                 pre_epochs.push((0..scenes as u64).map(|s| (s, trk.epoch(s))).collect());
                 outs.push(trk.predict_batch(b));
+                posts.push(trk.live().into_iter().map(|t| (t.id, t)).collect());
                 if let Some(w) = &wd {
                     w.beat();
                 }
@@ -200,6 +214,23 @@ fn main() {
         if !ok {
             continue;
         }
+        // (1b) every scene call of the batch tracker is itself a valid association per the C02 / C12 references
+        // (same-thread discipline only: the pre-batch snapshot is quiescent there)
+        if !consumer_thread {
+            'judge: for (bi, b) in batches.iter().enumerate() {
+                for (s, dets) in b {
+                    let recs = &outs[bi].iter().find(|x| x.0 == *s).unwrap().1;
+                    match judge_call(&cfg, *s, pre_epochs[bi][s] + 1, dets, recs, &pres[bi]) {
+                        Judgement::Invalid(sig, d) => {
+                            rep.violation(&format!("C06/{:?}/batch-call-invalid/{}", kind, sig), idx, json!({"ctx": ctx, "scene": s, "batch": bi, "detail": d}));
+                            break 'judge;
+                        }
+                        Judgement::Valid => rep.count("batch_scene_calls_judged_valid"),
+                        Judgement::Undecidable(_) => rep.count("batch_scene_calls_undecidable"),
+                    }
+                }
+            }
+        }
         // (2) refinement of the simple tracker, scene by scene
         let mut scfg = cfg.clone();
         scfg.kind = kind.simple();
@@ -227,6 +258,37 @@ fn main() {
                         _ => rep.count("tie_divergences"),
                     }
                     break;
+                }
+                // stored state of the tracks touched by this call (same-thread mode): histories, galleries, counters
+                if !consumer_thread {
+                    let spost: HashMap<u64, LiveTrack> = simple.live().into_iter().map(|t| (t.id, t)).collect();
+                    let mut state_diff = None;
+                    for (br, sr) in brecs.iter().zip(srecs.iter()) {
+                        if let (Some(bt), Some(st)) = (posts[bi].get(&br.id), spost.get(&sr.id)) {
+                            let same = |a: &[DBox], b: &[DBox]| a.len() == b.len() && a.iter().zip(b).all(|(x, y)| x.same(y));
+                            let gal = |t: &LiveTrack| {
+                                let mut g: Vec<(Option<Vec<u32>>, u32)> = t.gallery.iter().map(|g| (g.feature.as_ref().map(|f| f.iter().map(|x| x.to_bits()).collect()), g.quality.to_bits())).collect();
+                                g.sort();
+                                g
+                            };
+                            if !same(&bt.observed_hist, &st.observed_hist) || !same(&bt.predicted_hist, &st.predicted_hist) || bt.feature_hist != st.feature_hist {
+                                state_diff = Some(("histories", br.id, sr.id));
+                            } else if bt.collected_count != st.collected_count || gal(bt) != gal(st) {
+                                state_diff = Some(("gallery", br.id, sr.id));
+                            } else if bt.kalman != st.kalman || !bt.est.same(&st.est) {
+                                state_diff = Some(("filter-state", br.id, sr.id));
+                            }
+                            rep.count("stored_track_states_compared_with_simple_tracker");
+                        }
+                    }
+                    if let Some((what, bid, sid)) = state_diff {
+                        if same_grouping(brecs, &srecs, &map, &rev) {
+                            rep.violation(&format!("C06/{:?}/refinement/stored-{}-differs-with-equal-grouping", kind, what), idx, json!({"ctx": ctx, "scene": s, "batch": bi, "batch_track": bid, "simple_track": sid,
+                                "batch_gallery[quality,has_feature]": posts[bi].get(&bid).map(|t| t.gallery.iter().map(|g| (g.quality, g.feature.is_some())).collect::<Vec<_>>()),
+                                "simple_gallery[quality,has_feature]": spost.get(&sid).map(|t| t.gallery.iter().map(|g| (g.quality, g.feature.is_some())).collect::<Vec<_>>())}));
+                            break;
+                        }
+                    }
                 }
                 if let Some(e) = bijection_check(brecs, &srecs, &mut map, &mut rev) {
                     rep.violation(&format!("C06/{:?}/refinement/numbers-differ-with-equal-grouping", kind), idx, json!({"ctx": ctx, "scene": s, "batch": bi, "difference": e,
